@@ -29,8 +29,9 @@ type jval struct {
 }
 
 type c16Case struct {
-	Values []*jval `json:"values"` // top-level values
-	Text   string  `json:"text"`   // the rendering given to ReadJson
+	Values []*jval `json:"values"`           // top-level values
+	Text   string  `json:"text"`             // the rendering given to ReadJson
+	Before string  `json:"before,omitempty"` // a malformed text given to ReadJson just before (not judged here)
 }
 
 type c16BadCase struct {
@@ -266,6 +267,9 @@ func checkC16(c *c16Case) error {
 		jsonEvents(v, &ev)
 	}
 	model := xmodel.Build(ev)
+	if c.Before != "" {
+		safeReadJSON(c.Before)
+	}
 	cur, err := safeReadJSON(c.Text)
 	if pe, ok := err.(*panicError); ok {
 		return fmt.Errorf("ReadJson(%q) panicked: %v", c.Text, pe.v)
@@ -366,6 +370,10 @@ func TestC16(t *testing.T) {
 			}
 		}
 		c.Text = sb.String()
+		if rapid.IntRange(0, 3).Draw(t, "failingCallBefore") == 0 {
+			c.Before = []string{"{", "[[[", "{\"a\": [1, ", "[1,]", "{\"a\"}", "\"abc", "[}", "{\"a\":{\"b\":[{\"c\":"}[rapid.IntRange(0, 7).Draw(t, "before")]
+			st.Class("after-a-failing-call")
+		}
 		if !json.Valid([]byte(c.Text)) && n == 1 {
 			t.Fatalf("harness: generated invalid JSON %q", c.Text)
 		}
